@@ -23,7 +23,7 @@ from . import observe as ob
 IDS = ["M", "K", "N", "J"]
 
 MUTATORS = ("ref", "hw", "posref", "append", "extend", "setitem", "fiadd", "fimul", "filshift",
-            "updc", "updp", "updbelow", "clear", "setroot")
+            "updc", "updp", "updbelow", "clear", "setroot", "reroot")
 C03_FAMILY = ("ref", "hw", "posref", "get", "getpos")
 
 
@@ -135,6 +135,7 @@ class TreeSim(WorldBase):
         self.tasks = {}
         self.next_tid = 1
         self.handles = []
+        self.ihandles = []       # interior references (sub-fibers) a loop body kept
         self.uniq = 100          # unique written values
         self.cur_index = 0
         self.nfiles = 0
@@ -388,6 +389,12 @@ class TreeSim(WorldBase):
         default = a.get("default", 0)
         if route == "empty":
             t = Tensor(rank_ids=ids, shape=shape, default=default)
+        elif route == "noshape":
+            # a tensor without declared shapes (shapes and active ranges are estimated from the content)
+            t = Tensor(rank_ids=ids, default=default)
+            for pt, v in a.get("ent", []):
+                r = t.getPayloadRef(*pt)
+                r <<= v
         elif route == "unc":
             t = Tensor.fromUncompressed(ids, a["nest"], default=default)
         elif route == "fib":
@@ -548,6 +555,9 @@ class TreeSim(WorldBase):
         elif act == "attr":
             box.v = v
             new = v
+        elif act == "attrbox":
+            box.v = Payload(v)
+            new = v
         else:
             return {"act": "none"}
         if new != d:
@@ -556,7 +566,7 @@ class TreeSim(WorldBase):
             sl.model.pop(point, None)
         # `h op= x` rebinds the caller's name to whatever the operator returns: the in-place operators must
         # hand back the very same box, otherwise the caller's next write through that name is lost
-        if box is not orig and act != "attr":
+        if box is not orig and act not in ("attr", "attrbox"):
             self.V("C03", "C03.inplace-returns-handle", "hw" if self.prop == "C03" else "write",
                    f"in-place '{act}' through the handle at {point} returned a different object than the handle")
             self.V("C05", "C05.ref-into-z", "populate",
@@ -936,6 +946,61 @@ class TreeSim(WorldBase):
             return {"status": f"exc:{type(e).__name__}"}
         return {}
 
+    def op_reroot(self, a, targets):
+        """Tensor.setRoot() with a fresh, unowned top fiber that re-uses sub-fibers the tensor already owns
+        (a row dropped in place)"""
+        s = a["slot"]
+        sl = self.slot(s)
+        self.need_unfrozen(s)
+        if sl.free or sl.depth < 2:
+            raise Skip("needs an interior level")
+        root = sl.root
+        keep = [i for i in range(len(root.coords)) if not ((a.get("dropmask", 0) >> i) & 1)]
+        top = Fiber([root.coords[i] for i in keep], [root.payloads[i] for i in keep])
+        targets.add(s)
+        try:
+            sl.t.setRoot(top)
+        except Exception as e:
+            return {"status": f"exc:{type(e).__name__}"}
+        return {"kept": len(keep)}
+
+    def op_orphan(self, a, targets):
+        """use a reference the program kept although its element has since been removed from the tensor:
+        whatever happens to the orphan, no tensor may change"""
+        hs = [h for h in self.ihandles if h["slot"] in self.slots]
+        if not hs:
+            raise Skip("no kept interior reference")
+        h = hs[a["h"] % len(hs)]
+        sl = self.slots[h["slot"]]
+        f = h["fiber"]
+        # still in the tree? then it is not an orphan
+        for lv in ob.levels(sl.root):
+            if any(x is f for x in lv):
+                raise Skip("still in the tree")
+        below = sl.depth - h["level"]
+        if below < 1:
+            raise Skip("level")
+        pt = [a["c"] + i for i in range(below)]
+        try:
+            r = f.getPayloadRef(*pt)
+            if isinstance(r, Payload):
+                r <<= 7
+        except Exception as e:
+            return {"status": f"exc:{type(e).__name__}"}
+        self.probe("orphan_reference_used")
+        return {}
+
+    def gen_reroot(self, g):
+        s = self.pick_slot(g)
+        if s is None or self.slots[s].depth < 2:
+            return None
+        return ["op", "reroot", {"slot": s, "dropmask": g.getrandbits(6)}]
+
+    def gen_orphan(self, g):
+        if not self.ihandles:
+            return None
+        return ["op", "orphan", {"h": g.randrange(1 << 16), "c": g.randrange(4)}]
+
     def op_clear(self, a, targets):
         sl, f, level, leaf = self._mut(a, targets)
         try:
@@ -1173,6 +1238,9 @@ class TreeSim(WorldBase):
         res = {"judged": True, "c": ob.enc_coord(c), "act": act}
         if info["interior"]:
             res["act"] = "interior"
+            if isinstance(zr, Fiber) and len(self.ihandles) < 8:
+                # the body keeps the offered reference (and may use it after the loop dropped the element)
+                self.ihandles.append({"slot": t.zslot, "fiber": zr, "level": len(point)})
             return res
         if not isinstance(zr, Payload):
             return res
@@ -1546,6 +1614,14 @@ class TreeSim(WorldBase):
             S = g.randint(2, 6)
             return {"slot": s, "route": "free1", "depth": 1, "shape": [S], "default": 0,
                     "spec": self.gen_spec(g, [S], 0, cfg["explicit"])}
+        if self.prop in ("C05", "C10", "C02") and g.random() < 0.12:
+            ent = []
+            for _ in range(g.randint(0, 5)):
+                ent.append([[g.randrange(x) for x in shape], self.nextval()])
+            a0 = {"slot": s, "route": "noshape", "depth": depth, "shape": shape, "default": 0, "ent": ent}
+            if self.prop == "C05" and g.random() < 0.5:
+                a0["fmtU"] = [i for i in range(depth) if g.random() < 0.6]
+            return a0
         if self.prop in ("C03", "C10", "C02") and s > 0 and g.random() < 0.08:
             return {"slot": s, "route": "rank0", "depth": 0, "shape": [], "default": 0, "initial": g.choice([0, self.nextval()])}
         a = {"slot": s, "route": route, "depth": depth, "shape": shape, "default": cfg["leaf_default"]}
@@ -1609,8 +1685,10 @@ class TreeSim(WorldBase):
             return "sub", g.choice([1, 2, self.nextval()])
         if r < 0.72:
             return "subbox", g.choice([1, 2, self.nextval()])
-        if r < 0.74:
+        if r < 0.73:
             return "attr", self.nextval()
+        if r < 0.75:
+            return "attrbox", self.nextval()
         if r < 0.8:
             return "set", "DEFAULT"
         return "none", None
@@ -2087,7 +2165,7 @@ def _weighted(g, w):
 ob._k = lambda c: repr(c)
 
 ALLMUT = {"ref": 6, "hw": 3, "posref": 2, "append": 2, "extend": 1, "setitem": 3, "fiadd": 1, "fimul": 1,
-          "filshift": 1.5, "updc": 1.5, "updp": 1.5, "updbelow": 1, "clear": 1, "populate": 3, "descend": 6, "ishaperef": 2, "coishaperef": 1,
+          "filshift": 1.5, "updc": 1.5, "updp": 1.5, "updbelow": 1, "clear": 1, "reroot": 0.7, "orphan": 1.2, "populate": 3, "descend": 6, "ishaperef": 2, "coishaperef": 1,
           "new_op": 0.5}
 BASE_WEIGHTS = {
     "C01": dict(ALLMUT, get=1, rotrav=0.5, vr=1.5, ro=0.5),
